@@ -15,7 +15,7 @@ BOUNDS = {
 }
 OUTSIDE = ["limits that are not aligned with bin edges (property is stated for aligned limits)",
            "float round-off of (limit-offset)/sampling (the code now rounds to the nearest edge; reals stand for floats here)"]
-STUBS = ["int()/round() -> truncation / round-half-up over the reals"]
+STUBS = ["int() -> truncation over the reals; round() -> exact round-half-to-even over the reals"]
 ASSUMPTIONS = ["limits are aligned with bin edges: limit = offset + k*sampling exactly"]
 
 import abtem.measurements as MM
